@@ -11,6 +11,7 @@
   2^32 recycles of one ID).
 -/
 import Ark.Proofs.PoolHistory
+import Ark.Props.C01Hist
 
 namespace Ark.Props.C02
 open Ark Ark.Pool
@@ -127,5 +128,17 @@ example :
     let s := reach [.get, .get, .get, .recycle ⟨2, 0⟩, .recycle ⟨4, 0⟩, .get, .get, .recycle ⟨4, 1⟩, .get]
     s.live.length = 3 ∧ s.issued.length = 6 ∧ s.p.alive ⟨4, 0⟩ = false ∧ s.p.alive ⟨4, 2⟩ = true := by
   decide
+
+
+/-! ### World level (the model's NewEntity/RemoveEntity operations, histories of any length) -/
+
+/-- World.Alive(h) holds exactly for the handles created and not yet removed, after any history of world operations of the fragment -/
+theorem alive_exact_world : type_of% @Ark.Props.C01Hist.alive_exact_world := @Ark.Props.C01Hist.alive_exact_world
+
+/-- used entities = alive handles = number of table rows, after any such history -/
+theorem count_world : type_of% @Ark.Props.C01Hist.count_world := @Ark.Props.C01Hist.count_world
+
+/-- every NewEntity returns a handle different from all handles returned before -/
+theorem handles_fresh_world : type_of% @Ark.Props.C01Hist.handles_fresh_world := @Ark.Props.C01Hist.handles_fresh_world
 
 end Ark.Props.C02
